@@ -308,6 +308,59 @@ def r3_dc_gain(ctx):
                       key=f"C03-R3|{st}|{q}")
 
 
+def r4_windows(ctx):
+    """primary / residual window bookkeeping in srs()"""
+    fn = ctx.src.func(SRS, "srs")
+    body = fn.body
+    mdef = [s_ for s_ in body if isinstance(s_, ast.Assign) and ast.unparse(s_.targets[0]) == "M"]
+    if len(mdef) != 1 or ast.unparse(mdef[0].value) != "N":
+        raise AnchorError("srs: `M = N`")
+    # N (the number of samples of the possibly resampled signal) must not change between M = N and the zero padding
+    ptr_if = [s_ for s_ in body if isinstance(s_, ast.If) and ast.unparse(s_.test) == "ptr"]
+    if len(ptr_if) != 1:
+        raise AnchorError("srs: `if ptr:` padding block")
+    i_m, i_p = body.index(mdef[0]), body.index(ptr_if[0])
+    between = body[i_m + 1:i_p] if i_m < i_p else None
+    redef = []
+    if between is not None:
+        for s_ in between:
+            for n_ in ast.walk(s_):
+                if isinstance(n_, ast.Name) and isinstance(n_.ctx, ast.Store) and n_.id in ("N", "sig"):
+                    redef.append(ast.unparse(s_)[:60])
+    ok = between is not None and not redef
+    ctx.check(ok, "srs: M (end of the primary window) is taken from N after every resampling of the signal and before the zero padding", mdef[0],
+              None if ok else {"signal/N reassigned after M = N": redef} if between is not None else "M = N comes after the padding")
+    # later resampling sites all precede M = N
+    roll = [s_ for s_ in ast.walk(fn) if isinstance(s_, ast.Assign) and "rollfunc(" in ast.unparse(s_.value)]
+    ok = bool(roll) and all(r.lineno < mdef[0].lineno for r in roll)
+    ctx.check(ok, "srs: every rolloff resampling of the signal precedes M = N", mdef[0], [r.lineno for r in roll])
+    # the padding returns the new N
+    txt = ast.unparse(ptr_if[0]).replace(" ", "")
+    ctx.check("sig,N=_add_one_cycle(sig,freq,sr,H,ic,s1)" in txt, "srs: padding updates (sig, N) together", ptr_if[0])
+    # S = M for residual, else 0
+    sdef = [s_ for s_ in body if isinstance(s_, ast.Assign) and ast.unparse(s_.targets[0]) == "S"]
+    ok = len(sdef) == 1 and ast.unparse(sdef[0].value).replace(" ", "") == "Mifptr==2else0"
+    ctx.check(ok, "srs: the response is evaluated from S = M for the residual window and from 0 otherwise", sdef[0] if sdef else fn)
+    ptrs = ctx.src.func(SRS, "_process_inputs")
+    ok = "ptr={'primary':0,'total':1,'residual':2}" in ast.unparse(ptrs).replace(" ", "")
+    ctx.check(ok, "_process_inputs: primary -> 0, total -> 1, residual -> 2", ptrs)
+    # history allocation and time vector cover exactly N - S samples
+    gr = [s_ for s_ in body if isinstance(s_, ast.If) and ast.unparse(s_.test) == "getresp"]
+    if gr:
+        t = ast.unparse(gr[0]).replace(" ", "").replace("'", '"')
+        ok = 'ifptr==2:' in t and 'resp["t"]=np.arange(M,N)/sr' in t and '(N-M,H,LF)' in t and 'resp["t"]=np.arange(N)/sr' in t and '(N,H,LF)' in t
+        ctx.check(ok, "srs: history buffers and resp['t'] span N - M samples (residual) or N samples (primary/total)", gr[0])
+    else:
+        ctx.error("srs: getresp allocation block", fn)
+    # _add_one_cycle: zeros (minus s1 for steady) for one cycle of the lowest non-zero frequency
+    ac = ctx.src.func(SRS, "_add_one_cycle")
+    t = ast.unparse(ac).replace(" ", "").replace("'", '"')
+    ok = "nzeros=int(np.ceil(sr/minf))" in t and "minf=freq[pv].min()" in t and "pv=(freq>0).nonzero()[0]" in t
+    ctx.check(ok, "_add_one_cycle: pads ceil(sr / lowest non-zero frequency) samples", ac)
+    ok = 'ific=="steady":' in t and "sig=np.vstack((sig,z-s1))" in t and "sig=np.vstack((sig,z))" in t
+    ctx.check(ok, "_add_one_cycle: the padding is zero in the original signal's frame (z - s1 exactly when ic == 'steady' shifted the signal)", ac)
+
+
 def r6_vrs(ctx):
     fn = ctx.src.func(SRS, "vrs")
     loops = [n for n in walk_no_nested(fn) if isinstance(n, ast.For)]
@@ -383,6 +436,7 @@ RULES = [
     ("C03-R1", r1_filters, 36),
     ("C03-R2", r2_zero_limits, 12),
     ("C03-R3", r3_dc_gain, 20),
+    ("C03-R4", r4_windows, 8),
     ("C03-R6", r6_vrs, 5),
     ("C03-R7", r7_eqsine, 4),
 ]
